@@ -136,7 +136,11 @@ Definition silent_to_stop (lim : Z) (fails : bool) (d : dstate) : option dstate 
 
 Definition devent_step (lim : Z) (fails : bool) (d : dstate) (e : devent) : option dstate :=
   match e with
-  | ERecv s => dstep lim d (DRecv s)
+  | ERecv s =>   (* after a cancellation doLookup may have given up its unsent answers unobserved *)
+      match d_phase d with
+      | DSending => if d_cancelled d then dbind (dstep lim d DAbandon) (λ d1, dstep lim d1 (DRecv s)) else None
+      | _ => dstep lim d (DRecv s)
+      end
   | ECall ips res err =>
       dbind (silent_to_call lim fails d) (λ d1,
         if list_eqb str_eqb ips (d_ips d1) then dstep lim d1 (DCall res err) else None)
